@@ -191,7 +191,7 @@ class Cluster:
             # The last request of an end point is taken from the reference (consumer's last pull shifted by its delays; newest
             # publication for a push-notified adapter), not from what the output happened to record.
             new = hrs(self.newest)
-            tmin = min((new if v is None else v) for v in self.req_src.values())
+            tmin = min((self.links[k].endpoint_request_at_source(new) if v is None else v) for k, v in self.req_src.items())
             times = [hrs(tt) for tt, _ in self.out.data]
             newer = len([1 for tt in times if tt > tmin])
             if len(times) > newer + 1:
